@@ -73,6 +73,7 @@ def namespace(mode):
             ns[fn] = (lambda fn: (lambda x, y: _UFS.app(fn, ns['R'](x), ns['R'](y))))(fn)
         ns['absr'] = lambda x: z3.If(x >= 0, x, -x)
         ns['fresh'] = lambda name: z3.Real(name)
+        ns['flit'] = lambda x, tag='f32': z3.RealVal(_flit(x, tag))   # exact rational of the literal x rounded to float/double
     else:
         def flatn(xs):
             out = []
@@ -101,8 +102,18 @@ def namespace(mode):
         ns['exp2'] = safe(lambda x: 2.0 ** x)
         ns['absr'] = lambda x: Num(abs(float(x)))
         ns['fresh'] = lambda name: Num(0.0)
+        ns['flit'] = lambda x, tag='f32': Num(float(_flit(x, tag)))
     ns.update({k: v for k, v in globals().items() if k in EXPORT})
     return ns
+
+
+def _flit(x, tag='f32'):
+    """C19: the value of the source literal x (a Python float = the C double literal) after conversion to the element
+    type: 'f32' -> nearest binary32 (round to nearest even, as static_cast<float>), 'f64' -> the double itself; exact Fraction"""
+    import fractions, struct
+    if tag == 'f32':
+        x = struct.unpack('<f', struct.pack('<f', x))[0]
+    return fractions.Fraction(x)
 
 
 # ------------------------------------------------------------------ linear algebra (column-major)
@@ -309,6 +320,14 @@ def proportional(a, b):
     return [a[i] * b[j] == a[j] * b[i] for i in range(len(a)) for j in range(i + 1, len(a))]
 
 
+def minors3(a, b, c):
+    """C13: vectors a, b, c (same length n >= 3) are linearly dependent, i.e. c lies in the plane spanned by a and b when
+    those are independent: every 3x3 minor of the 3 x n matrix with rows a, b, c vanishes"""
+    n = len(a)
+    return [det([[a[i], b[i], c[i]], [a[j], b[j], c[j]], [a[k], b[k], c[k]]]) == 0
+            for i in range(n) for j in range(i + 1, n) for k in range(j + 1, n)]
+
+
 def setcol(M, j, v):
     """M with column j replaced by v (Cramer's rule: M x = v  =>  x[j] * det(M) == det(setcol(M, j, v)))"""
     return [list(v) if c == j else list(M[c]) for c in range(ncols(M))]
@@ -317,4 +336,4 @@ def setcol(M, j, v):
 EXPORT = ['mat', 'vec', 'ident', 'matmul', 'matvec', 'vecmat', 'transpose', 'madd', 'msub', 'mscale', 'det', 'eqm', 'eqv',
           'dot', 'cross', 'norm2', 'vadd', 'vsub', 'vscale', 'vneg', 'qmul', 'qconj', 'qrot_matrix', 'rodrigues', 'embed4',
           'rotX', 'rotY', 'rotZ', 'hom', 'ndc_is', 'proportional', 'setcol', 'ncols', 'nrows',
-          'vdiv', 'translation', 'diag', 'shear_elem', 'shear4_doc', 'block', 'last_row', 'mprod']
+          'vdiv', 'translation', 'diag', 'shear_elem', 'shear4_doc', 'block', 'last_row', 'mprod', 'minors3', 'flit']
